@@ -25,6 +25,7 @@ RULE = (
     "(reader kind, table hash, chunk size, columns) / (writer kind, table hash, append split, buffer)."
     " Delimited text uses the default tab or an explicit sep (, ; |) via from_path / CSVFileReader / CSVFileWriter; an unrelated reader (writer) with another delimiter is created and used while the one under test is alive."
     " Half of the delimited files write numbers the short way (%.17g: 2 instead of 2.0)."
+    " 30% of the writer cases run a second initialise / append / finalise session on the same writer object."
 )
 ASSUMPTIONS = [
     "strings are plain tokens (no NA-like / numeric-looking text: type inference of delimited text is outside the statement)",
@@ -308,13 +309,32 @@ def run_writers(case):
                     w.initialize()
                     feed()
                     w.finalize()
-                return w.get_associated_reader().read()
+                first = w.get_associated_reader().read()
+                if second_session:
+                    # the same writer object used for a second initialise / append / finalise session: the file then
+                    # holds exactly the rows of that session
+                    w.initialize()
+                    feed()
+                    w.finalize()
+                    second = w.get_associated_reader().read()
+                    return first, second
+                return first, None
+            second_session = bool(rng.random() < 0.3)
+            extra["second_session"] = second_session
             c = core.Call(go)
             evals += 1
             if not c.ok:
                 res.violate("crash", c.sig + f"/{suffix}/{btype.value}", msg=c.info["msg"], **extra)
                 continue
-            back = c.value.reset_index(drop=True)
+            back, again = c.value
+            back = back.reset_index(drop=True)
+            if again is not None:
+                res.count("second_sessions")
+                again = again.reset_index(drop=True)
+                bad2 = (len(again) != 0) if n == 0 else frame_diff(again, df.reset_index(drop=True), check_index=False)
+                if bad2:
+                    res.violate("write_readback", f"{suffix}/{btype.value}/second_session", diff=str(bad2), **extra)
+                    continue
             if n == 0:
                 if len(back) != 0 or list(back.columns) != list(df.columns):
                     res.violate("write_readback", suffix, diff=f"empty table came back as {back.shape}", **extra)
